@@ -79,6 +79,11 @@ func Parse(s string) (ByteSize, error) {
 	if !foundDigit {
 		return 0, fmt.Errorf("%w: no digits in: %s", ErrInvalidFormat, s)
 	}
+	if !foundUnit {
+		// The documented form is digits followed by a unit; a bare number is ambiguous (bytes? the
+		// unit of the default?) and is refused rather than guessed.
+		return 0, fmt.Errorf("%w: no unit in: %s", ErrInvalidFormat, s)
+	}
 	if num > math.MaxInt64/multiplier {
 		return 0, fmt.Errorf("%w: size too large in: %s", ErrInvalidFormat, s)
 	}
